@@ -65,7 +65,8 @@ func wantMutex(mode, depth int) bool {
 
 // behaviour modes (options and earlier refused calls that must not matter to Reveal):
 // 0 none, 1 forward indices, 2 negative indices, 3 capacity reached + refused calls made earlier, 4 all of these,
-// 5 the receiver is read-only (set just before the call; nothing may change)
+// 5 the receiver is read-only (set just before the call; nothing may change), 6 locking switched on after the
+// content was stored (instead of before), 7 / 8 the builder frees its own handles on the nested instances at even positions and in Conditions / at odd positions
 func (n rnode) build(path string, depth, mmode int, beh ...int) any {
 	bm := 0
 	if len(beh) > 0 {
@@ -106,7 +107,7 @@ func (n rnode) build(path string, depth, mmode int, beh ...int) any {
 		case 3:
 			s.SetSymbol("~").SetFold(true).SetLeadOnce(true).SetNoPadding(true)
 		}
-		if wantMutex(mmode, depth) {
+		if wantMutex(mmode, depth) && bm != 6 {
 			s.SetMutex()
 		}
 		var vals []any
@@ -114,6 +115,12 @@ func (n rnode) build(path string, depth, mmode int, beh ...int) any {
 			vals = append(vals, k.build(fmt.Sprintf("%s.%d", path, i), depth+1, mmode, bm))
 		}
 		fill(s, vals, fillMode(n.String()+path))
+		if wantMutex(mmode, depth) && bm == 6 {
+			s.SetMutex() // locking switched on when the content is already there
+		}
+		if bm == 7 || bm == 8 {
+			c20FreeBuilderHandles(vals, bm-7)
+		}
 		if (bm == 3 || bm == 4) && len(n.Kids) > 0 {
 			// one call that a full stack refuses (or that addresses nothing): the content stays as it
 			// is. One call only, so that Reveal is the first to meet whatever the call left behind.
@@ -140,12 +147,36 @@ func (n rnode) build(path string, depth, mmode int, beh ...int) any {
 			ex = n.Ex.build(path+".e", depth+1, mmode, bm)
 		}
 		c := condHistory("kw"+path, stackage.Ge, ex, fillMode(path+n.String()))
+		if bm == 7 {
+			c20FreeBuilderHandles([]any{ex}, 0)
+		}
 		if n.Paren {
 			c.SetParen(true)
 		}
 		return c
 	}
 	panic(n.T)
+}
+
+// c20FreeBuilderHandles: whoever assembled the tree lets go of its own handles on the nested instances
+// (Free on a copy of each handle) once they are stored: the tree keeps its own.
+func c20FreeBuilderHandles(vals []any, parity int) {
+	for i, v := range vals {
+		if i%2 != parity {
+			continue
+		}
+		switch tv := v.(type) {
+		case stackage.Stack:
+			h := tv
+			h.Free()
+		case StackAlias:
+			h := stackage.Stack(tv)
+			h.Free()
+		case stackage.Condition:
+			h := tv
+			h.Free()
+		}
+	}
 }
 
 // snap is the structure read back from live objects through the public API.
@@ -414,9 +445,14 @@ func c20Run(c *Ctx, cs c20Case, count bool) {
 	before := takeSnap(root)
 	if want := c20Expected(cs.Tree, "r"); want.String() != before.String() {
 		// the harness's own premise: the tree handed to Reveal is the one described
-		c.Outcome("skipped:tree-not-built-as-described")
-		c.Skipped.Add(1)
-		return
+		if cs.Beh != 7 && cs.Beh != 8 {
+			c.Outcome("skipped:tree-not-built-as-described")
+			c.Skipped.Add(1)
+			return
+		}
+		// (freeing the builder's handles took something away from the tree: whatever is left is still a
+		// structure made through the public API alone, and every oracle below is relative to it)
+		c.Outcome("tree-not-as-described-after-freeing-the-builder's-handles")
 	}
 	mx := map[uintptr]bool{}
 	collectMutexes(stackage.VerifDump(root), mx)
@@ -640,9 +676,9 @@ func init() {
 		}
 		c.Rule = "every tree of the bounded family (kinds AND/OR/NOT/LIST, parenthetical flags, children: leaf, nil, empty Stack, Stack, Condition(leaf), Condition(Stack), parenthetical Conditions; all single-child chains up to length 4/5 with several tails; aliases in the thorough tier) typed nil pointers to Stack / Condition / alias as leaves; x mutex placement (none, all, root only, all but root, alternating) x behaviour mode (none, forward indices, negative indices, capacity reached with refused Insert/Push/Replace/Remove/Swap made beforehand, all); oracle: identical depth-first leaf/Condition sequence, result reachable from the input by unwrapping redexes only (receiver never unwrapped), equal normal forms, no panic, no re-acquisition of a held mutex (lock hooks), no mutex left held; non-trivial = distinct cases in which Reveal changed the structure"
 		c.Bound["trees"] = len(trees)
-		behs := []int{0, 1, 3, 5}
+		behs := []int{0, 1, 3, 5, 6, 7, 8}
 		if !c.Quick() {
-			behs = []int{0, 1, 2, 3, 4, 5}
+			behs = []int{0, 1, 2, 3, 4, 5, 6, 7, 8}
 		}
 		c.Bound["mutex_modes"] = len(modes)
 		c.Bound["behaviour_modes"] = len(behs)
@@ -653,8 +689,11 @@ func init() {
 			}
 			for _, m := range modes {
 				for _, b := range behs {
-					if !c.Quick() && m >= 2 && b != 0 {
+					if !c.Quick() && m >= 2 && b != 0 && !(b == 6 && m == 2) {
 						continue // thorough: every behaviour mode with no / all mutexes, the other placements plain
+					}
+					if (b == 6 && m != 1 && m != 2) || (b >= 7 && m > 1) {
+						continue // late locking: all / root only; freed builder handles: no / all mutexes
 					}
 					c20Run(c, c20Case{trees[i], m, b}, true)
 				}
